@@ -227,20 +227,21 @@ pub fn target_of(r_day: i64, d: &Dur) -> Result<Dt, RErr> {
     let carry = tn.div_euclid(NS_PER_DAY);
     let tod = tn.rem_euclid(NS_PER_DAY);
     let date = date_add(Ymd::from_n(r_day), d.f[0], d.f[1], d.f[2], d.f[3] + carry, Overflow::Constrain)?;
-    let t = Dt { day: date.n(), ns: tod };
-    if !t.in_range() {
-        return Err(RErr::Range);
-    }
-    Ok(t)
+    // the date-time limits of the target are checked by the callers, after the "equal date-times" shortcut
+    Ok(Dt { day: date.n(), ns: tod })
 }
 
 /// Duration::round relative to a plain date
 pub fn duration_round(r_day: i64, d: &Dur, largest: U, inc: i128, smallest: U, mode: Mode) -> Result<Dur, RErr> {
     let r = Dt { day: r_day, ns: 0 };
-    if !r.in_range() {
+    let t = target_of(r_day, d)?;
+    // DifferencePlainDateTimeWithRounding step 1 (equal date-times give zero) precedes its limits check (step 2)
+    if r == t {
+        return Ok(Dur::zero());
+    }
+    if !r.in_range() || !t.in_range() {
         return Err(RErr::Range);
     }
-    let t = target_of(r_day, d)?;
     let i = diff_with_rounding(r, t, largest, inc, smallest, mode)?;
     Ok(to_dur(i, largest))
 }
@@ -248,12 +249,12 @@ pub fn duration_round(r_day: i64, d: &Dur, largest: U, inc: i128, smallest: U, m
 /// Duration::total relative to a plain date: exact rational (num, den)
 pub fn duration_total(r_day: i64, d: &Dur, unit: U) -> Result<(i128, i128), RErr> {
     let r = Dt { day: r_day, ns: 0 };
-    if !r.in_range() {
-        return Err(RErr::Range);
-    }
     let t = target_of(r_day, d)?;
     if r == t {
         return Ok((0, 1));
+    }
+    if !r.in_range() || !t.in_range() {
+        return Err(RErr::Range);
     }
     let (y, mo, w, dd, tn) = dt_diff(r, t, unit);
     let dur = Internal { y: y as i128, mo: mo as i128, w: w as i128, d: dd as i128, t: tn };
